@@ -195,6 +195,8 @@ class Fn:
             p2, b, tb = self.expr(e.right, want=ta if ta in ("nat", "N") else None)
             if ta == "nat" and tb in ("nat",):
                 op = "+" if isinstance(e.op, ast.Add) else "-"
+                if op == "+" and isinstance(e.right, ast.Constant) and e.right.value == 1:
+                    return p1 + p2, f"(S {a})", "nat"      # same term as `x += 1`
                 return p1 + p2, f"({a} {op} {b})%nat", "nat"
             if ta == "N" and tb == "N":
                 op = "+" if isinstance(e.op, ast.Add) else "-"
